@@ -22,6 +22,7 @@ RULE = ("cases = (literal, position): literals of length 0..40 over the clean al
         "CREATE TYPE enum value, mysql ENUM column value, LOCATION, TBLPROPERTIES value, schema COMMENT, ALTER ADD DEFAULT FOR); "
         "numeric defaults of 1..19 digits with leading zeros. Non-trivial = every (literal, position) pair; distinct = distinct pair.")
 RULE += (" Added after seeded defects: the respacing known finding is classified by a frozen executable model of the pinned substitutions (anything else on such a literal is a violation), more parenthesis literals, a backslash-escaped quote class (verbatim at the two positions that translate the placeholder back, exact-model known finding elsewhere); words that are or merely contain a grammar keyword (FOR, forever, platform ... over every keyword); BigQuery column/table OPTIONS(description=...) as two more positions; the same texts as double-quoted literals (with ' # ', ' -- ' inside) in every position that reads them; Snowflake string-valued table options (PATTERN, CATALOG, TABLE_FORMAT, FILE_FORMAT TYPE / NULL_IF members) as five more positions; words with '::', '$$' and '; drop ...'; the mode-independent positions are also read in a rotating other output mode.")
+RULE += " Wave 10: 3..14 literals on one physical line (ENUM value lists, one-line tables with N DEFAULTs), none / half / all of them holding , ( )."
 ASSUMPTIONS = ["no literal contains an unpaired quote or a backslash", "a literal is placed on one line (no TAB/newline directly before it: C05 owns that)"]
 MIN_EVENTS = {"statements": 100, "run_return": 100}
 
@@ -207,6 +208,8 @@ def token_witness(ddl, mode, lit):
 
 
 def check_case(ctx, case):
+    if case.get("gen") == "many_literals":
+        return many_literals_case(ctx, case)
     ctx.evaluated()
     if case.get("gen") == "word_mode":
         tmpl, path, mode, prefix = POS[case["position"]]
@@ -286,6 +289,44 @@ def check_case(ctx, case):
                               kf=kfkey if feat else None)
 
 
+def many_literals_case(ctx, case):
+    """N literals on ONE physical line (an ENUM value list, a CHECK .. IN list is not modelled, a one-line table with N DEFAULTs): the k-th value
+    reported is the k-th literal written - verbatim, or (literals with , ( ) only) exactly what the frozen model of the listed re-spacing defect makes of it"""
+    ctx.evaluated()
+    lits, shape = case["literals"], case["shape"]
+    if shape == "enum":
+        ddl = "CREATE TYPE ty AS ENUM (%s);\n" % ", ".join(lits)
+        path = lambda r, k: r[0]["properties"]["values"][k]
+    elif shape == "enumcol":
+        ddl = "CREATE TABLE t (a ENUM(%s) NOT NULL, b int);\n" % ", ".join(lits)
+        path = lambda r, k: r[0]["columns"][0]["values"][k]
+    else:
+        ddl = "CREATE TABLE t (%s);\n" % ", ".join("c%d varchar(40) DEFAULT %s" % (k, l) for k, l in enumerate(lits))
+        path = lambda r, k: r[0]["columns"][k]["default"]
+    ctx.nontrivial_case(digest(ddl))
+    ctx.obs["many_literals_on_one_line:%d" % len(lits)] += 1
+    r = parse(ddl, None, output_mode="mysql" if shape == "enumcol" else "sql")
+    if r[0] == "exc":
+        ctx.violation("many_literals:exception", dict(case, ddl=ddl), {"exception": r[1], "message": r[2]})
+        return
+    model = frozen_respacing(ddl)
+    for k, lit in enumerate(lits):
+        try:
+            got = path(r[1], k)
+        except (KeyError, IndexError, TypeError):
+            ctx.violation("many_literals:value_missing", dict(case, ddl=ddl), {"index": k, "literal": lit, "result": short(r[1], 300)})
+            return
+        if got == lit:
+            continue
+        bad = any(ch in lit for ch in ",()=")
+        kf = None
+        if bad and isinstance(got, str) and squash(got) == squash(lit) and got in model:
+            kf = "C07:separator-respaced-in-literal"
+        ctx.violation("many_literals:value_changed", dict(case, ddl=ddl), {"index": k, "of": len(lits), "expected": lit, "observed": got}, kf=kf)
+        if kf is None:
+            return
+
+
 HOSTILE = ["'\"'", "'\"\"'", "''", "' '", "'  two  blanks  '", "'CREATE TABLE x (y int);'".replace("(", "[").replace(")", "]"), "'--'", "'-- not a comment'", "'#'", "'# hash'",
            "'a;b;c'", "';'", "'NOT NULL'", "'DEFAULT'", "'PRIMARY KEY'", "'it''s'", "''''''", "'UPPER lower MiXeD'", "'0'", "'007'", "'1e5'", "'-1'",
            "'a.b.c'", "'[x]'", "'{k: v}'", "'<tag>'", "'a|b&c'", "'50%'", "'$1.00'", "'x@y.z'", "'~'", "'a/b'", "'a * b'", "'?'", "'!'", "'references'", "'ON DELETE CASCADE'"]
@@ -294,6 +335,16 @@ HOSTILE = ["'\"'", "'\"\"'", "''", "' '", "'  two  blanks  '", "'CREATE TABLE x 
 def run_shard(ctx):
     rng = ctx.rng
     positions = sorted(POS)
+    for j in range(ctx.budget(240, 4000)):
+        n = [3, 9, 10, 11, 12, 14, 10, 12][j % 8]
+        share = [0.0, 1.0, 0.5][j % 3]          # no / only / half of the literals hold a comma or a parenthesis
+        lits = []
+        for k in range(n):
+            if rng.random() < share:
+                lits.append("'v%d%sx'" % (k + 1, rng.choice([",", ", ", "(", ")", " (a) ", ",(", "),"])))
+            else:
+                lits.append("'%s%d'" % (rng.choice(["v", "val ", "it''s ", "a-b "]), k + 1))
+        check_case(ctx, {"gen": "many_literals", "literals": lits, "shape": ["enum", "defaults", "enumcol"][(j // 8) % 3]})
     i = 0
     for lit in HOSTILE:
         for pos in positions:
